@@ -111,7 +111,8 @@ static std::vector<vc::Point> executeHistory(const HExec &e, const std::function
                         if (s == ob::PlannerStatus::EXACT_SOLUTION && !cur->hasExactSolution())
                             fail("C03|status-exact-but-approximate|" + pl, "status Exact solution but the problem definition's best solution is flagged approximate" + where);
                         if (s == ob::PlannerStatus::APPROXIMATE_SOLUTION && !cur->hasApproximateSolution())
-                            fail("C03|status-approximate-but-exact|" + pl, "status Approximate solution but the problem definition's best solution is not flagged approximate" + where);
+                            fail("C03|status-approximate-but-exact|" + pl + (hadTop && !topBefore.approximate_ ? "|exact-solution-predates-this-call" : ""),
+                                 "status Approximate solution but the problem definition's best solution is not flagged approximate" + where);
                     }
                     // every reported path of the CURRENT query replays through the propagator, starts at the current start
                     checkPaths(P.get(), e.cfg, cur.get(),
